@@ -31,7 +31,8 @@ func Ledger(run *vh.Run, which string) {
 	nWorlds := run.N(8, 32)
 	blocksPer := run.N(60, 400)
 	variants := []ledgerCase{{MaxGas: -1, BaseFee: 1_000_000_000}, {MaxGas: 1_200_000, BaseFee: 1_000_000_000},
-		{MaxGas: -1, BaseFee: 7}, {MaxGas: 3_000_000, BaseFee: 50_000_000_000}}
+		{MaxGas: -1, BaseFee: 7}, {MaxGas: 3_000_000, BaseFee: 50_000_000_000},
+		{MaxGas: 5_000_000, BaseFee: 0}} // base fee exactly 0 (min gas price 0): the effective price of a dynamic-fee tx is its tip
 	for wi := 0; wi < nWorlds; wi++ {
 		label := fmt.Sprintf("world-%d", wi)
 		if !run.WantCase(label) {
@@ -76,6 +77,16 @@ func ledgerWorld(run *vh.Run, which, label string, wi int, v ledgerCase, nBlocks
 			plans = append(plans, genLedgerTx(w, r, pure))
 		}
 		w.RunPlans(plans, nil, check)
+		if b%15 == 7 { // pay / destroy / pay again / destroy again / forward, all inside one transaction
+			owner := pure[b%len(pure)]
+			ben := common.BytesToAddress(r.Bytes(20))
+			w.Track = append(w.Track, ben)
+			sc := w.PlanRepeatDestroy(owner, ben, big.NewInt(int64(1+r.Intn(1000))*1e12))
+			w.Track = append(w.Track, sc.Vault, sc.Orch)
+			w.RunPlans(sc.Deploy, nil, check)
+			w.RunPlans([]*vh.TxPlan{sc.Fire(w, pure[(b+1)%len(pure)])}, nil, check)
+			run.Count("repeat_destroy_scenarios", 1)
+		}
 	}
 	refundCapLeg(run, which, label, w, r, pure, check, v.MaxGas)
 }
@@ -200,9 +211,7 @@ func genLedgerTx(w *vh.World, r *vh.RNG, pure []*vh.Acct) *vh.TxPlan {
 	case k < 3: // create
 		p := vh.GenProgram(r, vh.ProgOpts{Pool: w.Pool, MaxLen: 5, Depth: 1})
 		gas := uint64(vh.Pick(r, []int{53000, 60000, 120000, 400000, 3_000_000}))
-		if value.Cmp(bal) > 0 {
-			value = new(big.Int)
-		}
+		// (a create whose value exceeds the balance left after the fee is kept: core error, like the transfer case)
 		return w.PlanEth(s, nil, value, gas, vh.Deployer(p.Code), class, fee)
 	default:
 		if len(w.Contracts) == 0 {
